@@ -16,12 +16,14 @@
         than a thousand ordinary calls); B: what BinaryCIFData.deserialize(compress(..).serialize())
         returns, element i projected with the unit 10^A.v[i].p; packed: "ok" when the msgpack round
         trip works and gives the same array, "Rejected" when it raises, "differs" otherwise.
-   kind = "file":     {cin, reps, hist, cout, eq, hist2, cout2, eq2}
+   kind = "file":     {cin, reps, hist, outs, werr, cout, eq, hist2, outs2, werr2, cout2, eq2}
         a BinaryCIFFile with the columns cin (each [name, A, M] with M = <<>> or <<mask array>>; reps[j] = the
-        memory representations of data and mask array of column j) was built, the read accesses hist (each
-        <<j, op>>: op of BcifColumn.ReadOps on column j) were performed, the file was written and read: cout what
-        came back, eq: read file == written file; then the accesses hist2 were performed on the file that was
-        read, it was written again and read: cout2, eq2.
+        memory representations of data and mask array of column j) was built, the operations hist (each
+        <<j, op>>: op of BcifColumn.Ops on column j - read accesses, in-place writes into the data / mask array,
+        re-assignment of the column) were performed; outs: what every serialize / write among them gave back when
+        it was read again ([k, oc, A, M]: operation k of hist); the file was written (werr: that raised) and read:
+        cout what came back, eq: read file == written file; then the operations hist2 were performed on the file
+        that was read (outs2), it was written again and read: werr2, cout2, eq2.
    Every chain / compress / compressx event has a field rep: the memory representation of the input array
    (BcifEncoding.Reps); every compress / compressx event a field level: the container compress() was called on
    (BcifEncoding.Levels; T is the tolerance that was passed to that call).  The judgement depends on neither.
@@ -99,12 +101,20 @@ JudgeCompressX(e, i) ==
 JudgeFile(e, i) ==
   LET dom == /\ \A j \in DOMAIN e.cin : /\ Dom_Col(ColOf(e.cin[j])) /\ e.reps[j][1] \in RepsOf(e.cin[j].A)
                                          /\ (e.cin[j].M # <<>> => e.reps[j][2] \in RepsOf(e.cin[j].M[1]))
-             /\ \A k \in DOMAIN e.hist : e.hist[k][1] \in DOMAIN e.cin /\ e.hist[k][2] \in ReadOps
-             /\ \A k \in DOMAIN e.hist2 : e.hist2[k][1] \in DOMAIN e.cin /\ e.hist2[k][2] \in ReadOps
+             /\ \A k \in DOMAIN e.hist : e.hist[k][1] \in DOMAIN e.cin /\ e.hist[k][2] \in Ops
+             /\ \A k \in DOMAIN e.hist2 : e.hist2[k][1] \in DOMAIN e.cin /\ e.hist2[k][2] \in Ops
+             /\ \A n \in DOMAIN e.outs : e.outs[n].k \in DOMAIN e.hist
+             /\ \A n \in DOMAIN e.outs2 : e.outs2[n].k \in DOMAIN e.hist2
       names == [j \in DOMAIN e.cin |-> e.cin[j].name]
+      L1 == Lives1(e.cin, e.hist)          \* the columns that were built, through the first history
+      L2 == Lives2(L1, e.hist2)            \* the columns that were read, through the second
   IN IF ~dom THEN PrintT(<<"NOTDOM", tid, i>>)
-     ELSE IF /\ e.eq /\ SameCols(e.cout, ColsAfter(e.cin, e.hist), names)
-             /\ e.eq2 /\ SameCols(e.cout2, ColsAfter(e.cin, e.hist \o e.hist2), names)
+     ELSE IF /\ OutsOk(e.outs, e.hist, L1)
+             /\ IF FileRefused(L1) THEN e.werr
+                ELSE /\ ~e.werr /\ e.eq /\ SameCols(e.cout, ContentOf(L1), names)
+                     /\ OutsOk(e.outs2, e.hist2, L2)
+                     /\ IF FileRefused(L2) THEN e.werr2
+                        ELSE ~e.werr2 /\ e.eq2 /\ SameCols(e.cout2, ContentOf(L2), names)
           THEN TRUE ELSE PrintT(<<"MISMATCH", tid, i, "unknown", {}, "ok">>)
 
 Init == tid \in 1..Len(Tr) /\ l = 0
